@@ -21,7 +21,7 @@ pub fn prop() -> Prop {
                each a real run on a reliable network with dial instructions registered as reconnect peers; oracle: if the usable bootstrap graph is connected every \
                pair is mutually connected within n announcement intervals + 10 s, and at every second no node has a peer with its own node id or one of its own \
                addresses. Self-dial: a node dials alias X while the network shows it source Y for every one of the 27 maps over {real, alias1, alias2}, alone and as \
-               member of a 3-mesh reached through the alias. non-trivial = usable bootstrap graph connected / self-addressed datagram delivered",
+               member of a 3-mesh reached through the alias. Multi-homed: node 0 with 0..9 advertise-addresses (v4/v6/mixed), optionally behind a forwarded port that node 2 cannot reach, node 2 optionally NATed: full mesh, one session per pair, alias adopted, payload between all pairs. non-trivial = usable bootstrap graph connected / self-addressed datagram delivered",
         run,
         replay,
     }
